@@ -325,7 +325,7 @@ func c15(tier string) {
 	ctx.Rule = "profile ASTs (two random formula families with several quantified constraints per mapping + validations whose scalar values equal keys of the profile language) each written in N spellings composing: key order of every mapping, order of names in level lists, operand / entry / constraint order, consistent prefix renaming, a twin prefix bound to the same namespace chosen per occurrence, built-in prefixes re-declared, plain/single/double quoting of string scalars, flow vs block collections, comments, indentation 2-6, blank lines, trailing spaces, document start marker; spellings are verified by yaml.v3 (in the harness) to carry the same document as their plain print; result sets {(severity, validation, focus, message)} and conforms must equal the base spelling's; " +
 		"non-trivial & distinct = (AST, spelling) with at least one result and at least two rewrites applied"
 	ctx.Assumptions = []string{"numbers and booleans are never quoted; if/then/else roles are never exchanged; no duplicate keys; prefix names over [A-Za-z0-9-]"}
-	nAst := ctx.N(110, 2000)
+	nAst := ctx.N(110, 900)
 	nSp := ctx.N(6, 16)
 	if !ctx.IsShard() {
 		ctx.RunShards()
